@@ -160,12 +160,57 @@ theorem fullName_eq (path : List Name) (item : Name) :
   unfold fullName
   exact dotJoin_snoc (pkgName :: path) item (by simp)
 
+/-- the last `.`-separated segment of a key (the whole key when it has no `.`) -/
+def lastSeg (x : Name) : Name :=
+  match RStr.rsplit_once_char x '.' with
+  | some p => p.2
+  | none => x
+
+/-- The GENERATED filter of `get_tests`, however the source spells it (`rsplit_once(".").map_or(x, |p| p.1)`,
+    a `match` on the `Option`, a private helper function — helpers are generated `@[simp]`
+    definitions): a key is kept iff its LAST segment starts with `test#`. -/
+theorem get_tests_filter_spec (x : Name) :
+    get_tests_filter x = RStr.starts_with (lastSeg x) ['t', 'e', 's', 't', '#'] := by
+  unfold lastSeg
+  rcases h : RStr.rsplit_once_char x '.' with _ | ⟨a, b⟩ <;>
+    (simp [get_tests_filter, h, ROpt_map_or, Id.run] <;> rfl)
+
 /-- the filter of `get_tests` looks at the last segment only -/
 theorem filter_fullName (path : List Name) (item : Name) (hdot : '.' ∉ item) :
     get_tests_filter (fullName path item) = RStr.starts_with item ['t', 'e', 's', 't', '#'] := by
-  unfold get_tests_filter
-  rw [fullName_eq, rsplit_once_char_split _ _ _ hdot]
-  rfl
+  rw [get_tests_filter_spec, fullName_eq]
+  unfold lastSeg
+  rw [rsplit_once_char_split _ _ _ hdot]
+
+/-- `rsplitGo` only ever answers with a split of the text it scans (or with `best`) -/
+theorem rsplitGo_some (d : Char) : ∀ (rest acc : Name) (best : Option (Name × Name)) (a b : Name),
+    RStr.rsplitGo d rest acc best = some (a, b) → best = some (a, b) ∨ ∃ pre, rest = pre ++ d :: b
+  | [], _, best, a, b, h => Or.inl (by simpa [RStr.rsplitGo] using h)
+  | c :: cs, acc, best, a, b, h => by
+    by_cases hc : c = d
+    · subst hc
+      simp only [RStr.rsplitGo, if_true] at h
+      rcases rsplitGo_some c cs _ _ a b h with h1 | ⟨pre, hp⟩
+      · right
+        refine ⟨[], ?_⟩
+        simp only [Option.some.injEq, Prod.mk.injEq] at h1
+        simp [h1.2]
+      · right; exact ⟨c :: pre, by simp [hp]⟩
+    · simp only [RStr.rsplitGo, hc, if_false] at h
+      rcases rsplitGo_some d cs _ _ a b h with h1 | ⟨pre, hp⟩
+      · exact Or.inl h1
+      · right; exact ⟨c :: pre, by simp [hp]⟩
+
+/-- the last segment of a key is a piece of the key -/
+theorem lastSeg_subset (x : Name) (c : Char) (h : c ∈ lastSeg x) : c ∈ x := by
+  unfold lastSeg at h
+  rcases hs : RStr.rsplit_once_char x '.' with _ | ⟨a, b⟩
+  · simpa [hs] using h
+  · rw [hs] at h
+    simp only at h
+    rcases rsplitGo_some '.' x [] none a b hs with h1 | ⟨pre, hp⟩
+    · cases h1
+    · rw [hp]; simp [h]
 
 /-! ### identifiers -/
 
@@ -203,6 +248,15 @@ theorem ident_not_test {X : XID} (F : XIDFacts X) (n : Name) (h : isIdent X n = 
   | false => rfl
   | true => exact absurd (prefix_mem hp '#' (by simp)) (ident_no_hash F n h)
 
+
+/-- A key without `#` is never taken for a test by the GENERATED filter.  The function table
+    also holds compiler-generated glue (`::generated::eq_7`, `…clone_…`, `…drop_…`); none of
+    their keys contains a `#`. -/
+theorem filter_no_hash (k : Name) (h : '#' ∉ k) : get_tests_filter k = false := by
+  rw [get_tests_filter_spec]
+  cases hp : RStr.starts_with (lastSeg k) ['t', 'e', 's', 't', '#'] with
+  | false => rfl
+  | true => exact absurd (lastSeg_subset k '#' (prefix_mem hp '#' (by simp))) h
 
 /-! ### counters and the loop -/
 
@@ -242,7 +296,7 @@ theorem step_spec {ε} (dbg : Bool) (s f n : Nat) (t : TestCase) (log : List Eve
   unfold run_tests_step
   simp only [Run.bind_apply, testcase_run_spec]
   cases h : accepts t <;>
-    simp [REq.eq, i32_add_one dbg s hs, i32_add_one dbg f hf]
+    simp [REq.eq, RResult_is_ok, RResult_is_err, i32_add_one dbg s hs, i32_add_one dbg f hf]
 
 def nAcc (l : List (Nat × TestCase)) : Nat := (l.filter (fun p => accepts p.2)).length
 def nRej (l : List (Nat × TestCase)) : Nat := (l.filter (fun p => !accepts p.2)).length
@@ -403,12 +457,20 @@ theorem get_function_key_injective (a b : Name) (h : get_function_key a = get_fu
   rw [get_function_key_spec, get_function_key_spec] at h
   exact List.append_cancel_left h
 
-/-- The GENERATED `Module::get_function` is the specification `TR.get_function`: the entry
-    under `"pkg." ++ name` and nothing else. -/
+/-- The GENERATED `Module::get_function` (key, look-up, the error of every exit, the order of the
+    parameter and return-type checks — all from source) is the specification `TR.get_function`:
+    the entry under `"pkg." ++ name` and nothing else, `DoesNotExist` when there is none,
+    `TypeMismatch` when its signature is not the requested one. -/
 theorem Module_get_function_spec (m : Module) (want : Sig) (name : Name) :
     Module_get_function m want name = TR.get_function m.functions want name := by
-  unfold Module_get_function get_function_at TR.get_function
+  unfold Module_get_function TR.get_function
   rw [get_function_key_spec]
+  cases h : Table.find m.functions (pkgDot ++ name) with
+  | none => rfl
+  | some info =>
+    obtain ⟨⟨ps, rt⟩, v⟩ := info
+    obtain ⟨wps, wrt⟩ := want
+    by_cases h1 : ps = wps <;> by_cases h2 : rt = wrt <;> simp [h1, h2]
 
 /-- The GENERATED `Package::get_function` adds nothing of its own. -/
 theorem Package_get_function_spec (p : Package) (want : Sig) (name : Name) :
@@ -494,6 +556,16 @@ theorem failureCount_replicate (acc rej : TestCase)
     (hacc : acc.func.info.verdict = .Accept ()) (hrej : rej.func.info.verdict = .Reject ()) (a n : Nat) :
     failureCount (List.replicate a acc ++ List.replicate n rej) = n := by
   simp [failureCount, List.filter_append, accepts, hacc, hrej]
+
+/-- "some element fails `p`" is "not all satisfy `p`" (classically) -/
+theorem exists_not_iff_not_forall {α} (l : List α) (p : α → Prop) :
+    (∃ t ∈ l, ¬ p t) ↔ ¬ ∀ t ∈ l, p t := by
+  constructor
+  · rintro ⟨t, ht, hn⟩ h
+    exact hn (h t ht)
+  · intro h
+    exact Classical.byContradiction fun hc =>
+      h (fun t ht => Classical.byContradiction fun hp => hc ⟨t, ht, hp⟩)
 
 @[simp] theorem failed_SUCCESS : ExitCode.SUCCESS.failed = false := rfl
 @[simp] theorem failed_FAILURE : ExitCode.FAILURE.failed = true := rfl
